@@ -54,5 +54,16 @@ def run_thorough(ctx, repo_root):
             R.ok("AUDIT variant corpus", r["id"])
     if stale:
         R.info(f"{len(stale)} variants no longer apply to the current source (stale): {[r['id'] for r in stale][:5]}")
+    # behaviour-preserving whole-tree transformations: the property's check must stay silent on each of them
+    import benign_global
+    res = benign_global.run_for_prop(ctx.prop, repo_root)
+    R.rule("AUDIT behaviour-preserving transformations", 6, "formatting, temporaries, renamed locals, negated branches, reordered methods and their composition leave the check silent")
+    R.extra_cov["transformations_run"] = [n for n, _, _ in res]
+    noisy = [(n, rc, first) for n, rc, first in res if rc != 0]
+    for n, rc, first in res:
+        if rc == 0:
+            R.ok("AUDIT behaviour-preserving transformations", n)
+    if noisy:
+        raise AnalysisError(f"the check is not silent on a behaviour-preserving transformation of the tree: {noisy[:2]}"[:400])
     if bad:
         raise AnalysisError(f"variant audit failed for {[r['id'] for r in bad][:5]} — the analysis misses a breaking variant or flags a benign one")
